@@ -28,7 +28,9 @@ BOUNDS = {
              'dict key or set element according to the outer kind; leaves in value positions are symbolic (int unbounded, '
              'str len <= 2), leaves in hashed positions concrete; convertTuplesToLists x convertSetsToLists symbolic; '
              'documents for the round trip: outer x mid x inner over {dict, list, tuple, set, generator, leaf}, depth 3',
-    'thorough': 'same with 0..3 children, depth 3 for library shapes (outer x mid x inner) on a rotated subset, longer budgets'}
+    'thorough': 'same with 0..3 children and str leaves (len <= 1); depth 3 for library shapes: every buildable outer x mid, inner '
+                'over leaf-int, tuple, frozenset, generator, itemsview; YaqlInterface routes per outer kind over 19 child kinds; '
+                'documents: every outer x mid x inner over the 10 document kinds, both entry points'}
 OUTSIDE = ['depth > 3, host-defined collection classes', 'hosts passing frozenset (convert_input_data treats only mutable sets '
            'as sets: a host frozenset comes back as a list - unspecified by the property, not asserted)',
            'symbolic values in hashed positions (dict keys, set elements are concrete strings/ints/tuples)',
@@ -592,9 +594,9 @@ def conditions(tier, seed):
                 't2l, s2l symbolic; through %s' % (len(OUTERS), what), 300, via=via, inners=[INNER_KINDS.index('tuple')])
         else:
             for oi, outer in enumerate(OUTERS):
-                add('finalize_via[%s,%s]' % (what, outer), 'finalize_via', 'outer %s, child symbolic over all %d kinds, '
-                    '0..1 children, t2l, s2l symbolic; through %s' % (outer, len(INNER_KINDS), what), 600,
-                    via=via, outers=[oi])
+                add('finalize_via[%s,%s]' % (what, outer), 'finalize_via', 'outer %s, child symbolic over %d kinds, '
+                    '0..1 children, t2l, s2l symbolic; through %s' % (outer, len(quick_inner), what), 600,
+                    via=via, outers=[oi], inners=quick_inner)
     if q:
         for outer in [k for i, k in enumerate(OUTERS) if (i + seed) % 10 == 0]:
             add('finalize_deep[%s]' % outer, 'finalize_deep',
@@ -603,12 +605,15 @@ def conditions(tier, seed):
                 slen=slen)
     else:
         for outer in OUTERS:
+            deep_inner = ['leaf-int', 'tuple', 'frozenset', 'generator', 'itemsview']
             for mi, mk in enumerate(INNER_KINDS):
                 if mk in LEAF_KINDS or mk == 'range':
                     continue
+                if not any(deep_ok(outer, mk, ik) for ik in deep_inner):
+                    continue                  # no such Python value (unhashable mid in a hashed position)
                 add('finalize_deep[%s,%s]' % (outer, mk), 'finalize_deep',
-                    'depth 3: %s [ %s [ inner [leaves] ], leaf ]; inner symbolic over %r; t2l, s2l symbolic' % (outer, mk, REP_KINDS),
-                    600, outer=outer, mids=[mi], inners=REP, slen=1)
+                    'depth 3: %s [ %s [ inner [leaves] ], leaf ]; inner symbolic over %r; t2l, s2l symbolic' % (outer, mk, deep_inner),
+                    600, outer=outer, mids=[mi], inners=[INNER_KINDS.index(k) for k in deep_inner], slen=1)
     if q:
         mids = [i for i, k in enumerate(DOC_KINDS) if k not in ('leaf-none', 'leaf-bool', 'leaf-float')]
         inners = [DOC_KINDS.index(k) for k in ('dict', 'tuple', 'set', 'leaf-int')]
@@ -626,6 +631,8 @@ def conditions(tier, seed):
         for outer in DOC_OUTER:
             for via, what in ((0, 'engine("$").evaluate(data=doc)'), (1, 'YaqlInterface("$1", doc)')):
                 for mi, mk in enumerate(DOC_KINDS):
+                    if not any(doc_ok(outer, mk, ik) for ik in DOC_KINDS):
+                        continue              # a set cannot hold a dict/list/set
                     add('roundtrip[%s,%s,%s]' % (outer, mk, 'evaluate' if via == 0 else 'interface'), 'roundtrip',
                         'host document %s [ %s [ inner [leaves] ], leaf ]; inner symbolic over %s; symbolic int/str(len<=1) leaves; '
                         't2l, s2l symbolic; via %s' % (outer, mk, ','.join(DOC_KINDS), what),
